@@ -10,6 +10,9 @@ Driver for engine `gate` (property C11). One op per line in, one canonical line 
   conn <id>                                                     a fresh connection
   c <id> <now> <ans> <CMD> …                                    one command on a connection
   cx <id> <now> <ans> <CMD> …                                   one command, then the client disconnects
+  cp <id> <now> <ans> IDENTIFY …                                an IDENTIFY with further plaintext lines pipelined behind it (= c)
+  cb <id> <now> <ans> <rd> <CMD> …                              such a pipelined line: received by reader generation <rd>
+  cz <id> <now> <ans> IDENTIFY …                                the barrier IDENTIFY sent after a pipelined one (= c)
   x <id>                                                        the client disconnects
   ia <grants> <topic-hex> <chan-hex>                            State.IsAllowed
   rx <pat-hex> <text-hex>                                       regexp family used by the harness
@@ -145,8 +148,14 @@ def showPol : CertPolicy → String
 def showReq : TlsReq → String
   | .no => "0" | .exceptHTTP => "1" | .yes => "2"
 
+/-- `cp` and `cz` lines are ordinary commands for the model -/
+def normVerb : List String → List String
+  | "cp" :: rest => "c" :: rest
+  | "cz" :: rest => "c" :: rest
+  | w => w
+
 def stepLine (st : DState) (line : String) : DState × String :=
-  match words line with
+  match normVerb (words line) with
   | ["cfg", tr, pol, cert, auth, maxBody, maxMsg] =>
     let tr? : Option TlsReq := if tr = "0" then some .no else if tr = "1" then some .exceptHTTP
       else if tr = "2" then some .yes else none
@@ -173,13 +182,29 @@ def stepLine (st : DState) (line : String) : DState × String :=
     match id.toNat? with
     | some id => ({ st with conns := setConn id (Conn.fresh id) st.conns }, "conn")
     | none => (st, "bad-op")
+  | "cb" :: id :: now :: ans :: rd :: cmd =>
+    -- a command line whose bytes were received by reader generation `rd` (sent in the same segment as
+    -- the IDENTIFY before it): the event `Ev.cmd rd now ans cmd`
+    match st.cfg, id.toNat?, now.toInt?, parseAns ans, rd.toNat?, parseCmd cmd with
+    | some cfg, some id, some now, some ans, some rd, some cmd =>
+      match lookupConn id st.conns with
+      | none => (st, "bad-op")
+      | some c =>
+        let r := stepEv driverExt cfg Nsq.Model.GateRegex.matcher { conn := c, broker := st.broker }
+                   (.cmd rd now (fun _ => ans) cmd)
+        let a := after r
+        ({ st with broker := a.broker, conns := setConn id a.conn st.conns },
+         s!"{"|".intercalate (r.replies.map showReply)} close={b01 r.close} q={showQuery r.query} tls={b01 r.conn.tls} st={showState r.conn.state} authed={b01 (hasAuthorizations r.conn)} broker={showBroker a.broker}")
+    | _, _, _, _, _, _ => (st, "bad-op")
   | "c" :: id :: now :: ans :: cmd =>
     match st.cfg, id.toNat?, now.toInt?, parseAns ans, parseCmd cmd with
     | some cfg, some id, some now, some ans, some cmd =>
       match lookupConn id st.conns with
       | none => (st, "bad-op")
       | some c =>
-        let r := step driverExt cfg Nsq.Model.GateRegex.matcher (fun _ => ans) now c st.broker cmd
+        -- the harness sends this line after the previous reply: it is received by the current reader
+        let r := stepEv driverExt cfg Nsq.Model.GateRegex.matcher { conn := c, broker := st.broker }
+                   (.cmd c.rd now (fun _ => ans) cmd)
         let a := after r
         ({ st with broker := a.broker, conns := setConn id a.conn st.conns },
          s!"{"|".intercalate (r.replies.map showReply)} close={b01 r.close} q={showQuery r.query} tls={b01 r.conn.tls} st={showState r.conn.state} authed={b01 (hasAuthorizations r.conn)} broker={showBroker a.broker}")
